@@ -272,7 +272,8 @@ Section Key.
     - cbn [xor_chunks64] in H. destruct (64 <=? length t)%nat eqn:C.
       + apply Nat.leb_le in C.
         destruct (xor_chunks64 fuel (skipn 64 t) (rotation key (off mod 8))) as [d' rest'] eqn:E.
-        inversion H; subst d rest. clear H.
+        assert (Hd : d = xor_words_in 8 (firstn 64 t) (rotation key (off mod 8)) ++ d') by congruence.
+        assert (Hrest : rest = rest') by congruence. subst d rest. clear H.
         rewrite <- (rotation_period off 8) in E. change (8 * 8) with 64 in E.
         destruct (IH (skipn 64 t) (off + 64) d' rest' (bytes_ok_skipn 64 t Ht) ltac:(rewrite skipn_length; lia) ltac:(lia) E)
           as [S [[k Hk] [Hr Lr]]].
@@ -297,7 +298,8 @@ Section Key.
     - cbn [xor_chunks8] in H. destruct (8 <=? length t)%nat eqn:C.
       + apply Nat.leb_le in C.
         destruct (xor_chunks8 fuel (skipn 8 t) (rotation key (off mod 8))) as [d' rest'] eqn:E.
-        inversion H; subst d rest. clear H.
+        assert (Hd : d = xor_word (firstn 8 t) (rotation key (off mod 8)) ++ d') by congruence.
+        assert (Hrest : rest = rest') by congruence. subst d rest. clear H.
         rewrite <- (rotation_period off 1) in E. rewrite Z.mul_1_r in E.
         destruct (IH (skipn 8 t) (off + 8) d' rest' (bytes_ok_skipn 8 t Ht) ltac:(rewrite skipn_length; lia) ltac:(lia) E)
           as [S [[k Hk] [Hr Lr]]].
@@ -344,7 +346,7 @@ Section Key.
       - rewrite xor_word_stream by (try apply bytes_ok_firstn; try assumption; rewrite firstn_length; lia).
         rewrite Z2Nat.id by lia. reflexivity. }
     rewrite Pro. clear Pro.
-    assert (Hal : (al <= 7)%nat) by (unfold al; destruct (misalign =? 0); lia).
+    assert (Hal : (al <= 7)%nat) by (unfold al; destruct (misalign =? 0) eqn:M; lia).
     set (t1 := skipn al t). set (off1 := off + Z.of_nat al).
     assert (Ht1 : bytes_ok t1) by (apply bytes_ok_skipn; exact Ht).
     destruct (xor_chunks64 (length t1) t1 (rotation key (off1 mod 8))) as [d64 t2] eqn:E64.
@@ -359,9 +361,10 @@ Section Key.
     assert (R3 : rotation key (off2 mod 8) = rotation key (off3 mod 8)).
     { unfold off3. rewrite K8. symmetry. apply rotation_period. }
     rewrite R3. rewrite xor_word_stream by (try assumption; try lia; unfold off3, off2, off1; lia).
-    rewrite <- (firstn_skipn al t) at 5. rewrite xor_stream_app.
     assert (La : length (firstn al t) = al) by (rewrite firstn_length; lia).
-    rewrite La. fold t1. fold off1. rewrite S64. fold off2. rewrite S8. fold off3. reflexivity.
+    assert (Split : xor_stream kb off t = xor_stream kb off (firstn al t) ++ xor_stream kb off1 t1).
+    { rewrite <- (firstn_skipn al t) at 1. rewrite xor_stream_app, La. reflexivity. }
+    rewrite Split, S64. fold off2. rewrite S8. fold off3. reflexivity.
   Qed.
 
   Lemma xor_stream_involutive t : forall off, bytes_ok t -> xor_stream kb off (xor_stream kb off t) = t.
@@ -383,13 +386,17 @@ End Key.
 (* the three statements of the obfuscation layer *)
 Lemma obf_address_independent kb off m1 m2 t : bytes_ok kb -> length kb = 8%nat -> bytes_ok t ->
   0 <= off -> 0 <= m1 < 8 -> 0 <= m2 < 8 -> obfuscate kb off m1 t = obfuscate kb off m2 t.
-Proof. intros. rewrite !obfuscate_spec by assumption. reflexivity. Qed.
+Proof.
+  intros Hk Lk Ht Ho H1 H2.
+  rewrite (obfuscate_spec kb Hk Lk off m1 t Ht Ho H1), (obfuscate_spec kb Hk Lk off m2 t Ht Ho H2). reflexivity.
+Qed.
 
 Lemma obf_involutive kb off m1 m2 t : bytes_ok kb -> length kb = 8%nat -> bytes_ok t ->
   0 <= off -> 0 <= m1 < 8 -> 0 <= m2 < 8 -> obfuscate kb off m2 (obfuscate kb off m1 t) = t.
 Proof.
-  intros. rewrite (obfuscate_spec kb) by assumption.
-  rewrite obfuscate_spec by (try assumption; apply xor_stream_ok; assumption).
+  intros Hk Lk Ht Ho H1 H2.
+  rewrite (obfuscate_spec kb Hk Lk off m1 t Ht Ho H1).
+  rewrite (obfuscate_spec kb Hk Lk off m2 _ (xor_stream_ok kb Hk Lk t off Ht) Ho H2).
   apply xor_stream_involutive; assumption.
 Qed.
 
@@ -397,6 +404,9 @@ Lemma obf_chunked kb off m m1 m2 a b : bytes_ok kb -> length kb = 8%nat -> bytes
   0 <= off -> 0 <= m < 8 -> 0 <= m1 < 8 -> 0 <= m2 < 8 ->
   obfuscate kb off m (a ++ b) = obfuscate kb off m1 a ++ obfuscate kb (off + Z.of_nat (length a)) m2 b.
 Proof.
-  intros. rewrite !obfuscate_spec by (try assumption; try lia; apply bytes_ok_app; auto).
-  apply xor_stream_app.
+  intros Hk Lk Ha Hb Ho Hm H1 H2.
+  rewrite (obfuscate_spec kb Hk Lk off m (a ++ b) ltac:(apply bytes_ok_app; auto) Ho Hm).
+  rewrite (obfuscate_spec kb Hk Lk off m1 a Ha Ho H1).
+  rewrite (obfuscate_spec kb Hk Lk (off + Z.of_nat (length a)) m2 b Hb ltac:(lia) H2).
+  apply xor_stream_app; assumption.
 Qed.
